@@ -9,6 +9,7 @@ import (
 	"go/token"
 	"go/types"
 	"os"
+	"os/exec"
 	"path/filepath"
 	"sort"
 	"strings"
@@ -427,7 +428,224 @@ type thoroughResult struct {
 }
 
 func (e *Engine) thoroughExtras(prop string, seed int) thoroughResult {
-	return thoroughResult{cov: map[string]interface{}{}}
+	res := thoroughResult{cov: map[string]interface{}{}}
+	// 1. the property's part of the must-fail / must-pass corpus, each against a scratch copy of the tree. A missed
+	//    mutant does not make the property false on this tree, so it does not change the exit code; it is reported
+	//    (SELFTEST-MISSED) and recorded: the check is then known to be blind to that change.
+	if os.Getenv("GOWP_NO_MUTANTS") == "" {
+		mres := runMutants(e.repo, e.verif, "", map[string]bool{prop: true})
+		var rows []map[string]interface{}
+		caught, missed, falseAlarm := 0, 0, 0
+		for _, r := range mres {
+			if r.Property != prop {
+				continue
+			}
+			rows = append(rows, map[string]interface{}{"id": r.ID, "kind": r.Kind, "outcome": r.Outcome, "failed_obligations": firstN(r.Failed, 3)})
+			switch r.Outcome {
+			case "caught", "pass":
+				caught++
+			case "missed":
+				missed++
+				fmt.Printf("SELFTEST-MISSED property=%s mutant=%s (the check does not notice this change)\n", prop, r.ID)
+			case "false-alarm":
+				falseAlarm++
+				fmt.Printf("SELFTEST-FALSE-ALARM property=%s mutant=%s (an equivalent edit is reported)\n", prop, r.ID)
+			}
+		}
+		res.cov["mutants"] = map[string]interface{}{"run": len(rows), "behaved_as_expected": caught, "missed": missed, "false_alarms": falseAlarm, "results": rows}
+	}
+	// 2. bounded complements (labelled bounded; never counted as discharged)
+	var bounded []map[string]interface{}
+	if prop == "C16" || prop == "C01" || prop == "C06" {
+		b := e.lcpConformance()
+		bounded = append(bounded, b)
+		if b["result"] == "disagree" {
+			res.violations++
+			rp := filepath.Join(e.outBase, "out", "replay", prop, "bounded-lcp-conformance.json")
+			writeJSON(rp, b)
+			fmt.Printf("bounded-lcp-conformance: the lcp axiom of the spec library disagrees with the reference on a ground instance\n")
+			fmt.Printf("VIOLATION property=%s replay=%s no-failing-input-found\n", prop, rp)
+		}
+	}
+	if prop == "C15" {
+		b := e.boundedOverlay("c15-roundtrip", "c15_roundtrip_test.go.txt", "region", "TestBoundedC15",
+			"real snappy codec through compressCellblocks/decompressCellblocks: 14 payload sizes around chunk boundaries x 3 byte patterns x 4 buffer splittings")
+		bounded = append(bounded, b)
+		if b["result"] == "fail" {
+			res.violations++
+			rp := filepath.Join(e.outBase, "out", "replay", prop, "bounded-c15-roundtrip.json")
+			writeJSON(rp, b)
+			fmt.Printf("bounded-c15-roundtrip: a compressed cellblock stream did not decompress to the bytes written\n")
+			fmt.Printf("VIOLATION property=%s replay=%s\n", prop, rp)
+		}
+	}
+	if len(bounded) > 0 {
+		res.cov["bounded"] = bounded
+	}
+	return res
+}
+
+func firstN(xs []string, n int) []string {
+	if len(xs) > n {
+		return xs[:n]
+	}
+	return xs
+}
+
+// boundedOverlay runs an in-package test kept under /verif/bounded against the real code (go test -overlay).
+func (e *Engine) boundedOverlay(name, file, pkgDir, pattern, bound string) map[string]interface{} {
+	out := map[string]interface{}{"name": name, "kind": "bounded", "bound": bound}
+	dir, err := os.MkdirTemp("", "gowp-bounded-")
+	if err != nil {
+		out["result"] = "not-run"
+		return out
+	}
+	defer os.RemoveAll(dir)
+	data, err := os.ReadFile(filepath.Join(e.verif, "bounded", file))
+	if err != nil {
+		out["result"] = "not-run"
+		return out
+	}
+	tf := filepath.Join(dir, "zz_bounded_test.go")
+	os.WriteFile(tf, data, 0o644)
+	ov := map[string]interface{}{"Replace": map[string]string{filepath.Join(e.repo, pkgDir, "zz_bounded_test.go"): tf}}
+	ovf := filepath.Join(dir, "ov.json")
+	writeJSON(ovf, ov)
+	cmd := exec.Command("go", "test", "-overlay", ovf, "-vet=off", "-count=1", "-timeout", "300s", "-v", "-run", pattern, "./"+pkgDir+"/")
+	cmd.Dir = e.repo
+	cmd.Env = append(os.Environ(), "GOFLAGS=-mod=mod", "GOPROXY=off", "GOSUMDB=off", "GOTOOLCHAIN=local")
+	o, err := cmd.CombinedOutput()
+	text := string(o)
+	switch {
+	case err == nil && strings.Contains(text, "--- PASS"):
+		out["result"] = "pass"
+	case strings.Contains(text, "--- FAIL") || strings.Contains(text, "panic:"):
+		out["result"] = "fail"
+		out["output"] = lastLines(text, 25)
+	default:
+		out["result"] = "not-run"
+		out["output"] = lastLines(text, 10)
+	}
+	for _, l := range strings.Split(text, "\n") {
+		if i := strings.Index(l, "BOUNDED "); i >= 0 {
+			out["covered"] = strings.TrimSpace(l[i+8:])
+		}
+	}
+	return out
+}
+
+func lastLines(s string, n int) string {
+	ls := strings.Split(strings.TrimRight(s, "\n"), "\n")
+	if len(ls) > n {
+		ls = ls[len(ls)-n:]
+	}
+	return strings.Join(ls, "\n")
+}
+
+// lcpConformance: the lcp axiom (A9) must determine lcp, lexlt and lexeq to the values of an executable reference on
+// every pair of byte strings of length <= 3 over {0,1,255}, at a non-zero offset; and the instance must be satisfiable.
+// Bounded guard of the spec library; proves no property.
+func (e *Engine) lcpConformance() map[string]interface{} {
+	out := map[string]interface{}{"name": "lcp-axiom-conformance", "kind": "bounded",
+		"bound": "all pairs of byte strings of length <= 3 over {0,1,255}; first operand at array offset 1"}
+	alpha := []int{0, 1, 255}
+	var strs [][]int
+	var gen func(cur []int, n int)
+	gen = func(cur []int, n int) {
+		strs = append(strs, append([]int(nil), cur...))
+		if n == 0 {
+			return
+		}
+		for _, a := range alpha {
+			gen(append(cur, a), n-1)
+		}
+	}
+	gen(nil, 3)
+	var b strings.Builder
+	b.WriteString("(set-logic ALL)\n")
+	b.WriteString(e.preludeFor("(lcp (lexlt (lexeq"))
+	arr := func(xs []int, off int) string {
+		t := "((as const (Array Int Int)) 7)"
+		for i, x := range xs {
+			t = fmt.Sprintf("(store %s %d %d)", t, off+i, x)
+		}
+		return t
+	}
+	n := 0
+	for _, x := range strs {
+		for _, y := range strs {
+			p := 0
+			for p < len(x) && p < len(y) && x[p] == y[p] {
+				p++
+			}
+			lt := (p == len(x) && p < len(y)) || (p < len(x) && p < len(y) && x[p] < y[p])
+			eqv := p == len(x) && p == len(y)
+			A, B := arr(x, 1), arr(y, 0)
+			args := fmt.Sprintf("%s 1 %d %s 0 %d", A, 1+len(x), B, len(y))
+			fmt.Fprintf(&b, "(push)(assert (not (and (= (lcp %s) %d) (= (lexlt %s) %v) (= (lexeq %s) %v))))(check-sat)(pop)\n", args, p, args, lt, args, eqv)
+			n++
+		}
+	}
+	b.WriteString("(push)(assert (= (lcp " + arr([]int{1, 2}, 1) + " 1 3 " + arr([]int{1, 3}, 0) + " 0 2) 1))(check-sat)(pop)\n")
+	dir := filepath.Join(e.outBase, "out", "bounded")
+	os.MkdirAll(dir, 0o755)
+	f := filepath.Join(dir, "lcp_conformance.smt2")
+	os.WriteFile(f, []byte(b.String()), 0o644)
+	r := runSolver(solvers[0], f, 240, "")
+	lines := strings.Fields(r.output)
+	out["instances"] = n
+	out["seconds"] = round3(r.secs)
+	if len(lines) != n+1 {
+		out["result"] = "not-run"
+		out["output"] = firstLines(r.output, 5)
+		return out
+	}
+	// instances z3-new leaves undecided are put to the other solvers one by one
+	text := b.String()
+	var head, pushes []string
+	for _, l := range strings.Split(text, "\n") {
+		if strings.HasPrefix(l, "(push)") {
+			pushes = append(pushes, l)
+		} else {
+			head = append(head, l)
+		}
+	}
+	determined, refuted, undecided := 0, 0, 0
+	for i := 0; i < n; i++ {
+		v := lines[i]
+		if v != "unsat" && v != "sat" {
+			one := filepath.Join(dir, fmt.Sprintf("lcp_conformance_%d.smt2", i))
+			os.WriteFile(one, []byte(strings.Join(head, "\n")+"\n"+pushes[i]+"\n"), 0o644)
+			for _, sp := range solvers[1:] {
+				rr := runSolver(sp, one, 20, "")
+				if rr.verdict == "unsat" || rr.verdict == "sat" {
+					v = rr.verdict
+					break
+				}
+			}
+			os.Remove(one)
+		}
+		switch v {
+		case "unsat":
+			determined++
+		case "sat":
+			refuted++
+		default:
+			undecided++
+		}
+	}
+	out["determined"] = determined
+	out["undecided"] = undecided
+	out["refuted"] = refuted
+	switch {
+	case refuted > 0 || lines[n] == "unsat":
+		out["result"] = "disagree" // the axiom admits another value, or the axioms are contradictory on a ground instance
+	case undecided > 0:
+		out["result"] = "agree-partially"
+	default:
+		out["result"] = "agree"
+	}
+	return out
 }
 
 // lemmaObligations: spec-level lemmas listed in /verif/spec/lemmas.txt: "<name> <props,comma> <file.smt2> <expect>"
